@@ -100,6 +100,24 @@ class CleanShutdownQueue(asyncio.Queue[QueueEntryType]):
 
         return self.get_nowait()
 
+    async def wait_until_not_empty(self) -> None:
+        """Wait until an item is available without removing it (for a single consumer that takes it later with get_nowait)."""
+        while self.empty():
+            if self._is_shutdown:
+                raise QueueShutDown
+
+            getter: asyncio.Future[QueueEntryType] = self._get_loop().create_future()  # type: ignore
+            self._getters.append(getter)  # type: ignore[arg-type]
+            try:
+                await getter
+            except:
+                getter.cancel()  # Just in case getter is not done yet.
+                try:
+                    self._getters.remove(getter)  # type: ignore[arg-type]
+                except ValueError:
+                    pass
+                raise
+
     async def put(self, item: QueueEntryType) -> None:
         """Put an item into the queue, with shutdown support."""
         while self.full():
@@ -904,39 +922,41 @@ class EventBus:
             # Don't call stop() here as it might create new tasks
             self._is_running = False
 
-    async def _get_next_event(self, wait_for_timeout: float = 0.1) -> 'BaseEvent[Any] | None':
-        """Get the next event from the queue"""
+    async def _wait_for_next_event(self, wait_for_timeout: float = 0.1) -> bool:
+        """Wait until the queue has an event, without removing it: it stays visible until the global lock is held"""
 
-        assert self._on_idle and self.event_queue, 'EventBus._start() must be called before _get_next_event()'
+        assert self._on_idle and self.event_queue, 'EventBus._start() must be called before _wait_for_next_event()'
         if not self._is_running:
-            return None
+            return False
 
         try:
-            # Create a task for queue.get() so we can cancel it cleanly
-            get_next_queued_event = asyncio.create_task(self.event_queue.get())
-            if hasattr(get_next_queued_event, '_log_destroy_pending'):
-                get_next_queued_event._log_destroy_pending = False  # type: ignore  # Suppress warnings on this task in case of cleanup
+            # Create a task for the wait so we can cancel it cleanly
+            wait_for_queued_event = asyncio.create_task(self.event_queue.wait_until_not_empty())
+            if hasattr(wait_for_queued_event, '_log_destroy_pending'):
+                wait_for_queued_event._log_destroy_pending = False  # type: ignore  # Suppress warnings on this task in case of cleanup
 
             # Wait for next event with timeout
-            has_next_event, _pending = await asyncio.wait({get_next_queued_event}, timeout=wait_for_timeout)
+            has_next_event, _pending = await asyncio.wait({wait_for_queued_event}, timeout=wait_for_timeout)
             if has_next_event:
-                # Check if we're still running before returning the event
+                # Check if we're still running before processing the event
                 if not self._is_running:
-                    get_next_queued_event.cancel()
-                    return None
-                return await get_next_queued_event  # await to actually resolve it to the next event
+                    if not wait_for_queued_event.cancelled():
+                        wait_for_queued_event.exception()  # mark as retrieved
+                    return False
+                await wait_for_queued_event  # re-raises QueueShutDown if the queue was shut down
+                return True
             else:
-                # Get task timed out, cancel it cleanly to suppress warnings
-                get_next_queued_event.cancel()
+                # Wait timed out, cancel it cleanly to suppress warnings
+                wait_for_queued_event.cancel()
 
                 # Check if we're idle, if so, set the idle flag
                 if not (self.events_pending or self.events_started or self.event_queue.qsize()):
                     self._on_idle.set()
-                return None
+                return False
 
         except (asyncio.CancelledError, RuntimeError, QueueShutDown):
             # Clean cancellation during shutdown or queue was shut down
-            return None
+            return False
 
     async def step(
         self, event: 'BaseEvent[Any] | None' = None, timeout: float | None = None, wait_for_timeout: float = 0.1
@@ -944,23 +964,34 @@ class EventBus:
         """Process a single event from the queue"""
         assert self._on_idle and self.event_queue, 'EventBus._start() must be called before step()'
 
-        # Track if we got the event from the queue
-        from_queue = False
+        # Track if we get the event from the queue
+        from_queue = event is None
 
         # Wait for next event with timeout to periodically check idle state
-        if event is None:
-            event = await self._get_next_event(wait_for_timeout=wait_for_timeout)
-            from_queue = True
-        if event is None:
-            return None
-
-        logger.debug(f'🏃 {self}.step({event}) STARTING')
-
-        # Clear idle state when we get an event
-        self._on_idle.clear()
+        if from_queue:
+            if not await self._wait_for_next_event(wait_for_timeout=wait_for_timeout):
+                return None
+            # Clear idle state when there is an event to process
+            self._on_idle.clear()
 
         # Always acquire the global lock (it's re-entrant across tasks)
         async with _get_global_lock():
+            if from_queue and not self._is_running:
+                return None  # stopped while we were waiting for the lock
+            if from_queue:
+                # Only take the event off the queue once we hold the lock. Until then it stays visible to a handler of
+                # another bus that awaits it (and processes it itself), and the order of this queue is not disturbed
+                try:
+                    event = self.event_queue.get_nowait()
+                except asyncio.QueueEmpty:
+                    return None  # an awaiting handler already processed it while we waited for the lock
+            assert event is not None
+
+            logger.debug(f'🏃 {self}.step({event}) STARTING')
+
+            # Clear idle state when we get an event
+            self._on_idle.clear()
+
             try:
                 # Process the event
                 await self.process_event(event, timeout=timeout)
